@@ -30,7 +30,7 @@ def run(ctx, report: Report) -> None:
     mmod = src.mod('css_match')
 
     # ---- R1 ----------------------------------------------------------------------------------------------
-    r1 = report.rule('C05-R1', 'list-level facts depend only on the list\'s parse flags', floor=2)
+    r1 = report.rule('C05-R1', 'list-level facts depend only on the list\'s parse flags', floor=1)
     rets = [n for n in walk_no_nested(ps) if isinstance(n, ast.Return) and isinstance(n.value, ast.Call)
             and src.resolve_class_ref(pmod, n.value.func) == 'css_types.SelectorList']
     if len(rets) != 1:
@@ -56,43 +56,13 @@ def run(ctx, report: Report) -> None:
                              f'skip) of its siblings, so "A, B" is no longer the union of A and B')
 
     # ---- R2 ----------------------------------------------------------------------------------------------
-    r2 = report.rule('C05-R2', 'alternative loop: OR of ANDs xor is_not', floor=2)
+    r2 = report.rule('C05-R2', 'alternative loop: OR of ANDs xor is_not', floor=19)
     _, ms = src.func('css_match.CSSMatch.match_selectors')
-    loops = [n for n in ast.walk(ms) if isinstance(n, ast.For)]
-    if len(loops) != 1:
-        raise AnalysisError('match_selectors: expected one loop over the alternatives')
-    lp = loops[0]
-    first = lp.body[0]
-    ok = isinstance(first, ast.Assign) and unparse(first) == 'match = is_not'
-    r2.instance({'first_statement': unparse(first)[:40], 'resets_to_is_not': ok}, key='first')
-    r2.obligation(ok)
-    if not ok:
-        r2.violation('match_selectors loop first statement', mmod.where(first),
-                     'each alternative must start from `match = is_not`; otherwise a failed alternative leaves the result of an '
-                     'earlier one in place')
-    idx = next((i for i, st in enumerate(lp.body) if isinstance(st, ast.Assign) and unparse(st) == 'match = not is_not'), None)
-    ok = idx is not None and idx + 1 < len(lp.body) and isinstance(lp.body[idx + 1], ast.Break) and idx + 2 == len(lp.body)
-    r2.instance({'success': 'match = not is_not; break  (last statements of the loop body)', 'ok': ok}, key='success')
-    r2.obligation(ok)
-    if not ok:
-        r2.violation('match_selectors success/break', mmod.where(lp), 'the loop body must end with `match = not is_not` followed by `break`')
-    null = [st for st in lp.body if isinstance(st, ast.If) and 'SelectorNull' in unparse(st.test)]
-    ok = len(null) == 1 and len(null[0].body) == 1 and isinstance(null[0].body[0], ast.Continue)
-    r2.instance({'SelectorNull': 'skips the alternative with continue', 'ok': ok}, key='null')
-    r2.obligation(ok)
-    if not ok:
-        r2.violation('match_selectors SelectorNull', mmod.where(lp), 'an un-matchable alternative (SelectorNull) must be skipped with `continue`')
-    inits = [st for st in ms.body if isinstance(st, ast.Assign) and isinstance(st.targets[0], ast.Name) and st.targets[0].id == 'match']
-    ok = bool(inits) and unparse(inits[0].value) == 'False'
-    r2.instance({'initial_result': unparse(inits[0].value) if inits else None}, key='init')
-    if not ok:
-        r2.violation('match_selectors initial result', mmod.where(ms), 'the result of an empty / skipped list must start as False')
-    isnot = [st for st in ms.body if isinstance(st, ast.Assign) and unparse(st) == 'is_not = selectors.is_not']
-    if not isnot:
-        r2.violation('match_selectors is_not source', mmod.where(ms), '`is_not` is no longer taken from the list being evaluated')
+    from .sem import alternatives_table
+    alternatives_table(ctx, r2)
 
     # ---- R3 ----------------------------------------------------------------------------------------------
-    r3 = report.rule('C05-R3', 'HTML-only context is restored per activation; the gate is document-level', floor=45)
+    r3 = report.rule('C05-R3', 'HTML-only context is restored per activation; the gate is document-level', floor=22)
     from .c04 import swap_restore
     attrs, problems = swap_restore(mmod, ms)
     r3.instance({'attributes_swapped': sorted(attrs), 'problems': [f'{a}: {st}' for a, st, _, _ in problems]}, key='swap')
@@ -147,7 +117,7 @@ def run(ctx, report: Report) -> None:
     list_context_table(ctx, r3)
 
     # ---- R4 ----------------------------------------------------------------------------------------------
-    r4 = report.rule('C05-R4', 'list flags by pseudo-class', floor=2)
+    r4 = report.rule('C05-R4', 'list flags by pseudo-class', floor=1)
     _, po = src.func('css_parser.CSSParser.parse_pseudo_open')
     F = {k: inv.const('css_parser', k) for k in ('FLG_PSEUDO', 'FLG_OPEN', 'FLG_NOT', 'FLG_RELATIVE', 'FLG_FORGIVE')}
     want = {':not': F['FLG_NOT'], ':has': F['FLG_RELATIVE'], ':is': F['FLG_FORGIVE'], ':where': F['FLG_FORGIVE'], ':matches': 0}
@@ -193,7 +163,7 @@ def run(ctx, report: Report) -> None:
                          f'internal prefix map and iframe restriction, and skipped in XML)')
 
     # ---- R5 ----------------------------------------------------------------------------------------------
-    r5 = report.rule('C05-R5', 'comma resets per-alternative state; implied universal selector (parsed token sequences)', floor=10)
+    r5 = report.rule('C05-R5', 'comma resets per-alternative state; implied universal selector (parsed token sequences)', floor=6)
     from .sem import comma_tables, implied_universal_tables
     comma_tables(ctx, r5)
     implied_universal_tables(ctx, r5)
